@@ -6,6 +6,7 @@ import (
 	"math/big"
 	"os"
 	"sort"
+	"strconv"
 	"strings"
 	"time"
 
@@ -331,7 +332,7 @@ func init() {
 		Level:     "model_checking",
 		Technique: "bounded exhaustive enumeration of programs x gas limits (step boundaries of the ample-gas run) executed on the real interpreter and on go-ethereum v1.12.0 with (i) equivalent full-data recording debug tracers and (ii) each ported tracer next to its upstream original, results compared byte for byte; scenario call trees with failing join points for balance and nesting of the event stream",
 		Rule: "(i) C01's IM/SEQ/ENTRY/EIPS/SSTORESEQ/SDSEQ/CREATESEQ families: full callback streams (copied stack, memory, return data, gas, cost, depth, refund, error text; enter/exit arguments) equal at ample gas and at sampled step-boundary limits; (iii) 18 tracer configurations (structLogger x5, accessListTracer with and without a previous list, prestateTracer x2, 4byteTracer, callTracer x3, flatCallTracer x3, muxTracer, noopTracer) port vs upstream, bracketed by the same CaptureTxStart/End, at ample gas and 2 limits; (ii) scenario trees (depth 2 and depth-3 chains) with Aspects bound everywhere and failing answers, 1-3 invocations: start/end, enter/exit, Aspect enter/exit balanced and nested, every instruction reported at the depth of the open frames. non-trivial = distinct (case, limit, tracer) runs whose reference result contains at least one nested frame or an error",
-		Assumptions: []string{"tracer outputs are compared when no Aspect is bound (the statement's domain for the inherited tracers)"},
+		Assumptions: []string{"tracer outputs are compared when no Aspect is bound (the statement's domain for the inherited tracers)", "prestateTracer/muxTracer are not run on instruction-matrix cases whose CREATE2 announces an init code of 2^32 bytes or more: both the ported and the upstream tracer copy that range before the instruction's gas check (4 GiB and more per run); counted as skipped"},
 		Bounds: func(t string) map[string]any {
 			o := c18Opts(t)
 			return map[string]any{"im_operand_deviation_bound": o.IMBound, "seq_len": o.SeqL, "forks": len(o.Forks), "tracer_configurations": len(pairs), "limits_per_case": len(c18Limits(t, make([]uint64, 100)))}
@@ -393,7 +394,14 @@ func init() {
 					runs = append(runs, &a, &b)
 				}
 				nested := strings.Contains(strings.Join(rrec.Lines, "\n"), "\n> ")
+				hugeCreate2 := c18HugeCreate2(family, cs.Note)
 				for pi, p := range pairs {
+					if hugeCreate2 && (strings.HasPrefix(p.Name, "prestateTracer") || strings.HasPrefix(p.Name, "muxTracer")) {
+						// the prestate tracer (ported and upstream alike) copies the init-code range CREATE2 announces before the
+						// instruction's own gas check: 4 GiB and more per run on both sides - out of the compared domain
+						w.Skipped++
+						continue
+					}
 					for _, c := range runs {
 						d := c18TracerDiff(sess, c, p)
 						w.Evals++
@@ -471,6 +479,24 @@ func init() {
 			return []fw.Violation{{Sig: sig, Detail: d, Case: raw}}
 		},
 	})
+}
+
+// c18HugeCreate2 recognises the instruction-matrix cases in which CREATE2 announces an init code of 2^32 bytes or more
+// (size operand = index >= 7 of the length alphabet).
+func c18HugeCreate2(family, note string) bool {
+	if (family != "IM" && family != "EIPS") || !strings.Contains(note, "op=0xf5 ") {
+		return false
+	}
+	i := strings.LastIndex(note, "operands=[")
+	if i < 0 {
+		return false
+	}
+	f := strings.Fields(strings.TrimSuffix(note[i+len("operands=["):], "]"))
+	if len(f) < 3 {
+		return false
+	}
+	n, err := strconv.Atoi(f[2])
+	return err == nil && n >= 7
 }
 
 func c18Report(w *fw.W, cs *world.Case, pair int, d string, again func() string) {
